@@ -1,5 +1,6 @@
 import Drv.Cks
 import Drv.PkgLen
+import Drv.AmlScalars
 open Drv
 
 /-- one line `stream case… | impl…` → failures -/
@@ -13,6 +14,12 @@ def checkLine (line : String) : List Fail :=
       | "cks" => checkCks case impl
       | "pkglen" => checkPkgLen case impl
       | "pkgblk" => checkPkgBlk case impl
+      | "int" => checkInt case impl
+      | "intblk" => checkIntBlk case impl
+      | "path" => checkPath case impl
+      | "eisa" => checkEisa case impl
+      | "eisablk" => checkEisaBlk case impl
+      | "uuid" => checkUuid case impl
       | _ => [⟨"corr", "-", "driver", s!"unknown stream {stream}"⟩]
     | [] => [⟨"corr", "-", "driver", "empty line"⟩]
   | _ => [⟨"corr", "-", "driver", "malformed line (no ' | ')"⟩]
